@@ -110,17 +110,24 @@ def case_generator(name, opts, dtype, backend):
             fn, aux = registry.instantiate(name, opts, real_t, num_threads=False, shape=shape)
             closed = {k: aux[k] for k in sp.get("closed_over", [])}
             for binding in BINDINGS:
+                # the SAME array objects are passed for every pattern (re-filled in place): a kernel object
+                # is called repeatedly with identical scratch / output arrays, as the simulators do
+                views, bases = {}, {}
                 for pattern in PATTERNS:
-                    views, bases, pre_bytes, A = {}, {}, {}, {}
+                    A = {}
                     for k, (arg, kind, role) in enumerate(sp["arrays"]):
                         shp = shape if kind in ("s", "s+", "c") else (d, *shape)
                         vals = _values(shp, k, kind, pattern, sp.get("input_scale", 1.0))
                         if kind == "c":
                             vals = vals + 1j * _values(shp, k + 7, kind, pattern)
-                        v, base = _bind(vals, cdt if kind == "c" else real_t, binding)
+                        if arg not in views:
+                            v, base = _bind(vals, cdt if kind == "c" else real_t, binding)
+                            views[arg], bases[arg] = v, base
+                        else:
+                            v = views[arg]
+                            v[...] = vals.astype(v.dtype)
                         if role == "out":
                             _sentinel(v)
-                        views[arg], bases[arg] = v, base
                         A[arg] = v.astype(np.complex128 if kind == "c" else np.float64).copy()
                     base_pre = {a: b.copy() for a, b in bases.items()}
                     view_pre = {a: v.copy() for a, v in views.items()}
